@@ -39,4 +39,5 @@ def jobs(tier):
     out += matrix_jobs('C06', 'm1', tier)
     out += matrix_jobs('C06', 'm2', tier)
     out += matrix_jobs('C06', 'm3', tier)
+    out += matrix_jobs('C06', 'm4', tier)
     return flat(out)
